@@ -56,7 +56,9 @@ func (l *Listener) Expect(ctx context.Context, from jid.JID, sid string) (net.Co
 	if ok {
 		e.cancel()
 	}
-	e.c = make(chan *Conn)
+	// The channel has room for the one connection that is ever sent on it so
+	// that the serve loop never waits for a caller that went away.
+	e.c = make(chan *Conn, 1)
 	ctx, cancel := context.WithCancel(ctx)
 	e.cancel = cancel
 	l.expected[key] = e
@@ -64,6 +66,20 @@ func (l *Listener) Expect(ctx context.Context, from jid.JID, sid string) (net.Co
 
 	select {
 	case <-ctx.Done():
+		// Nobody is waiting for this session any more: do not leave the
+		// registration behind for a later open request to run into, unless it
+		// belongs to a newer call that took over.
+		l.eLock.Lock()
+		if cur, ok := l.expected[key]; ok && cur.c == e.c {
+			delete(l.expected, key)
+		}
+		l.eLock.Unlock()
+		// The session may have been handed over already.
+		select {
+		case conn := <-e.c:
+			return conn, nil
+		default:
+		}
 		return nil, ctx.Err()
 	case conn, ok := <-e.c:
 		if !ok {
